@@ -68,6 +68,43 @@ fn table_eq(m: &LineMap, starts: &[u32], len: u32, diffs: &[(u32, &[(u32, u32)])
     }
     true
 }
+/// executable copy of the representation invariant LineMap::wf that the Verus unit `lmap` assumes (contracts/lmap_prelude.rs)
+fn lm_wf(m: &LineMap) -> bool {
+    let ls = &m.line_starts;
+    if ls.len() < 1 || ls[0] != 0 { return false; }
+    let mut i = 1;
+    while i < ls.len() { if !(ls[i - 1] < ls[i]) { return false; } i += 1; }
+    if ls[ls.len() - 1] > m.len { return false; }
+    let mut l = 0;
+    while l < ls.len() {
+        let end = if l + 1 >= ls.len() { m.len } else { ls[l + 1] - 1 };
+        if end < ls[l] { return false; }
+        let blen = end - ls[l];
+        if let Some(ds) = m.char_diffs.get(&(l as u32)) {
+            let mut k = 0;
+            while k < ds.len() {
+                let dv = ds[k].1 as u32;
+                if !(1 <= dv && dv <= 2) { return false; }
+                let next = if k + 1 < ds.len() { ds[k + 1].0 } else { blen };
+                if ds[k].0 + 1 + dv > next { return false; }
+                k += 1;
+            }
+        }
+        l += 1;
+    }
+    true
+}
+/// executable copy of LineMap::bnd of the Verus unit: byte `off` of line `l` is not strictly inside a recorded multi-byte character
+fn lm_mb(m: &LineMap, l: u32, off: u32) -> bool {
+    if let Some(ds) = m.char_diffs.get(&l) {
+        let mut k = 0;
+        while k < ds.len() {
+            if ds[k].0 < off && off < ds[k].0 + 1 + ds[k].1 as u32 { return false; }
+            k += 1;
+        }
+    }
+    true
+}
 /// reference: byte offset of a client position, None if it is not a valid position of the document
 fn expected_offset(valid: &[(u32, u32, u32)], line: u32, col: u32) -> Option<u32> {
     let mut i = 0;
@@ -128,10 +165,12 @@ fn c14_d%(idx)d() {
     let (t, m) = LineMap::normalize(doc_string(DOC));
     assert!(t == DOC, "K1: a text without CR is stored unchanged");
     assert!(table_eq(&m, %(starts)s, %(len)s, %(diffs)s), "K1: line map equals the reference table");
+    assert!(lm_wf(&m), "LineMap::wf, the representation invariant the Verus unit lmap assumes, holds for the line map normalize built");
     let o: u32 = kani::any();
     kani::assume(o <= %(n)d);
     let (is_boundary, el, ec) = POS[o as usize];
     if is_boundary {
+        assert!(lm_mb(&m, el, o - m.line_starts[el as usize]), "LineMap::bnd of the Verus unit lmap: a character boundary is never strictly inside a recorded multi-byte character");
         let (l, c) = m.line_col_for_pos(TextSize::from(o));
         assert!(l == el && c == ec, "K2: the (line, UTF-16 column) the server reports is the one an LSP client computes");
         assert!(u32::from(m.pos_for_line_col(l, c)) == o, "K2: offset -> (line, col) -> offset is the identity");
